@@ -108,7 +108,7 @@ fn family_of(rng: &mut Rng) -> Family {
     *rng.pick(&[Family::None, Family::Core, Family::Elements, Family::Elements])
 }
 
-fn gen_dag(rng: &mut Rng, family: Family, fuel: usize, dup: u64) -> Option<(Dag, ast::Typing)> {
+pub fn gen_dag(rng: &mut Rng, family: Family, fuel: usize, dup: u64) -> Option<(Dag, ast::Typing)> {
     let p = GenParams { family, share_pct: 15, dup_pct: dup, mid: TyParams { max_width: 40, max_depth: 3, max_word_n: 4 }, ..GenParams::basic(fuel) };
     let (a, b) = (ty::unit(), ty::unit());
     let dag = gen::gen_program(rng, &p, &a, &b);
@@ -330,7 +330,7 @@ impl SrcGen<'_> {
 
 /// Text for a well-typed DAG. Nodes used more than once are always named (a witness or hole
 /// written twice would be two nodes); others are named or inlined at random.
-fn source_text(rng: &mut Rng, dag: &Dag, typing: &ast::Typing) -> (String, Vec<&'static str>) {
+pub fn source_text(rng: &mut Rng, dag: &Dag, typing: &ast::Typing) -> (String, Vec<&'static str>) {
     let n = dag.len();
     let mut refs = vec![0usize; n];
     for op in &dag.nodes {
@@ -460,7 +460,7 @@ fn arrow_is_empty(line: &str) -> bool {
     !line.contains(" : ")
 }
 
-fn parse_family(text: &str, family: Family) -> Result<Result<Forest, String>, String> {
+pub fn parse_family(text: &str, family: Family) -> Result<Result<Forest, String>, String> {
     guard(|| match family {
         Family::Elements => Forest::parse::<Elements>(text).map_err(|e| e.to_string()),
         _ => Forest::parse::<Core>(text).map_err(|e| e.to_string()),
